@@ -320,6 +320,16 @@ Definition sparse_repeat (stride : nat -> nat) (s : sparse) (repeat_sizes : list
            else s in
   let nd := length (sshape s) in
   loop (length repeat_sizes) (fun i s => sparse_repeat_dim stride s (nd - 1 - i) (nth i repeat_sizes 0)) s.
+(* the calling convention `sparse_repeat(sparse, *repeat_sizes)`: the pinned test
+   `len(repeat_sizes) == 1 and isinstance(repeat_sizes, tuple)` is true for EVERY single argument, so a single int r
+   becomes `repeat_sizes = r` and `len(r)` raises TypeError; the repaired test looks at `repeat_sizes[0]` *)
+Inductive rep_args := RVarargs (l : list nat) | RTuple (l : list nat).
+Definition sparse_repeat_call (fixed_call : bool) (stride : nat -> nat) (s : sparse) (a : rep_args) : result sparse :=
+  match a with
+  | RTuple l => Ok (sparse_repeat stride s l)
+  | RVarargs [r] => if fixed_call then Ok (sparse_repeat stride s [r]) else Err
+  | RVarargs l => Ok (sparse_repeat stride s l)
+  end.
 Definition stride_pinned (sz : nat) : nat := 1.
 Definition stride_dense (sz : nat) : nat := sz.
 
@@ -387,10 +397,11 @@ Definition bdsmm (stride : nat -> nat) (s : sparse) (d : tensor) : result tensor
 Definition sparse_eye (size : nat) : sparse := mkS [size; size] (map (fun k => ([k; k], 1%Z)) (seq 0 size)).
 
 (* sparse_getitem(sparse, idxs).  Index items: Python ints and slices (None = omitted bound).
-   `fixed` = true transcribes the repaired code: negative ints are normalised, an empty selection is an empty
-   entry list and an empty slice has size 0;  false = pinned code (negative ints never match; an empty selection is
-   one explicit zero at index 0, which the final constructor rejects in a dimension of size 0; stop < start gives a
-   negative size, which raises). *)
+   `fixed` = false transcribes the pinned code: a negative int never matches an entry (the result is all zeros);
+   `stop < start` after slice.indices gives a negative size, which raises; an empty selection is ONE explicit zero at
+   index 0, which is out of bounds in a dimension of size 0 (the result cannot be densified: counted as a raise).
+   `fixed` = true transcribes the repaired code (proposed_fixes/C20-sparse-getitem-*.diff): `if idx < 0: idx += size[i]`,
+   `stop = max(stop, start)`, and `if 0 in size: indices, values = indices[:, :0], values[:0]` before the constructor. *)
 Inductive index := IInt (k : Z) | ISlice (start stop step : option Z).
 (* slice.indices(n) for step 1 *)
 Definition slice_indices (start stop : option Z) (n : Z) : Z * Z :=
@@ -405,19 +416,19 @@ Definition getitem_step (fixed : bool) (i : nat) (ix : index) (st : list Z * lis
       let k := if fixed && (k <? 0)%Z then (k + nth i size 0)%Z else k in
       let hit := filter (fun e => Z.eqb (Z.of_nat (nth i (fst e) 0)) k) ents in
       let ents' := match hit with
-                   | [] => if fixed then [] else [(repeat 0 (length size - 1), 0%Z)]
+                   | [] => [(repeat 0 (length size - 1), 0%Z)]
                    | _ => map (fun e => (del_nth i (fst e), snd e)) hit end in
       Ok (del_nth i size, ents')
   | ISlice start stop step =>
       let '(a, b) := slice_indices start stop (nth i size 0%Z) in
-      let len := if fixed then Z.max (b - a) 0 else (b - a)%Z in
+      let b := if fixed then Z.max b a else b in
       match step with
       | None | Some 1%Z =>
         let hit := filter (fun e => let v := Z.of_nat (nth i (fst e) 0) in (v <? b)%Z && (a <=? v)%Z) ents in
         let ents' := match hit with
-                     | [] => if fixed then [] else [(repeat 0 (length size), 0%Z)]
+                     | [] => [(repeat 0 (length size), 0%Z)]
                      | _ => map (fun e => (upd_nth i (nth i (fst e) 0 - Z.to_nat a) (fst e), snd e)) hit end in
-        Ok (upd_nth i len size, ents')
+        Ok (upd_nth i (b - a)%Z size, ents')
       | _ => Err
       end
   end.
@@ -433,6 +444,7 @@ Definition sparse_getitem (fixed : bool) (s : sparse) (idxs : list index) : resu
   st <- getitem_loop fixed idxs 0 (map Z.of_nat (rev (sshape s)), map (fun e => (rev (fst e), snd e)) (sent s)) ;;
   let '(size, ents) := st in
   if existsb (fun d => (d <? 0)%Z) size then Err else
+  let ents := if fixed && existsb (fun d => (d =? 0)%Z) size then [] else ents in
   (* `return sum(values)` when no dimension is left: a 0-dim result holding the sum *)
   mk_sparse (rev (map Z.to_nat size)) (map (fun e => (rev (fst e), snd e)) ents).
 
